@@ -62,6 +62,7 @@ class Interp:
             self.pos, self.pc, self.dec, self.pending = 0, list(self.base), [], pending
             self.path_calls = {}
             self.fresh_n = 0
+            self.strpred = {}            # predicates decided on abstract strings on this path (same question -> same answer)
             self.path_log = []
             self.decided = {}
             self.statics = {}            # process-wide state of the interpreted crate: lives for one path
@@ -181,6 +182,8 @@ class Interp:
                 if st[0] == 'assign':
                     v = self.rvalue(body, cells, st[2], st[1])
                     self.place(cells, st[1]).set(v)
+                elif st[0] == 'unparsed':
+                    raise Unsupported(f'MIR statement the parser does not know, in {name}: {st[1][:120]} ({st[2]})')
                 elif st[0] == 'setdisc':
                     raise Unsupported('SetDiscriminant statement in ' + name)
             k = term[0]
@@ -238,6 +241,24 @@ class Interp:
                 bb = ret
             else:
                 raise Unsupported(f'terminator {k} in {name}')
+
+    def naga_scalar_const(self, name):
+        """associated constants of naga::Scalar (I32, F32, BOOL ...), read from the locked naga source"""
+        tbl = getattr(Interp, '_scalar_consts', None)
+        if tbl is None:
+            import glob
+            src = open(glob.glob('/root/.cargo/registry/src/*/naga-24.0.0/src/proc/mod.rs')[0]).read()
+            widths = {'crate::BOOL_WIDTH': 1, 'crate::ABSTRACT_WIDTH': 8}
+            tbl = {}
+            for n, k, w in re.findall(r'pub const (\w+): Self = Self \{\s*kind: crate::ScalarKind::(\w+),\s*width: ([\w:]+),', src):
+                tbl[n] = (k, int(w) if w.isdigit() else widths[w])
+            Interp._scalar_consts = tbl
+        if name not in tbl:
+            raise Unsupported('naga::Scalar::' + name)
+        kind, width = tbl[name]
+        sch = self.env.get('schema')
+        disc = next(v['disc'] for v in sch['enums']['ScalarKind'] if v['name'] == kind)
+        return Agg('Scalar', [Agg('ScalarKind', [], variant=kind, disc=disc), width])
 
     def resolve(self, callee):
         r = self._resolve_cache.get(callee)
@@ -406,6 +427,9 @@ class Interp:
         m = re.match(r'ZeroSized: (.*)$', s)
         if m:
             return FnItem(m.group(1))
+        m = re.match(r'^naga::proc::<impl naga::Scalar>::(\w+)$', s)
+        if m:
+            return self.naga_scalar_const(m.group(1))
         raise Unsupported('const operand ' + s)
 
     def optype(self, body, op):
